@@ -55,8 +55,9 @@ fn program_text() -> impl Strategy<Value = String> {
         any::<bool>(),
         0u8..5,
         prop_oneof![Just(None), (0u8..=255).prop_map(Some)],
+        0u8..8,
     )
-        .prop_map(|(p, prelude, stack, psize)| {
+        .prop_map(|(p, prelude, stack, psize, style)| {
             let mut prog = vec![];
             if prelude {
                 // make key interrupts effective: LDSP, enable bit, EI; vector at 2 is whatever follows
@@ -65,7 +66,16 @@ fn program_text() -> impl Strategy<Value = String> {
             prog.extend(p);
             let mut img = assemble(&prog);
             img.truncate(0xF0);
-            image_text(&img, stack, psize)
+            // the program *file* is part of the CLI's input: all three line terminators the grammar knows,
+            // a commented header, comments behind lines
+            let text = image_text(&img, stack, psize);
+            let text = if style & 4 != 0 { text.replacen("#! mrasm", "#! mrasm ; generated", 1) } else { text };
+            let text = if style & 4 != 0 { text.replace("\n .DB", " ; data\n .DB") } else { text };
+            match style & 3 {
+                2 => text.replace('\n', "\r\n"),
+                3 => text.replace('\n', "\r"),
+                _ => text,
+            }
         });
     if repo_programs.is_empty() {
         gen.boxed()
